@@ -38,6 +38,7 @@ pub struct OscProp {
 
 pub const KNOWN_ENDPOINT_DROP: &str = "c02.mpsc-endpoint-drop-no-yield";
 pub const KNOWN_SEM_OBSERVERS: &str = "c02.semaphore-observers-no-yield";
+pub const KNOWN_BARRIER_ARRIVAL: &str = "c02.barrier-blocking-arrival-no-yield";
 pub const KNOWN_TRYSEND_FULL: &str = "c06.try-send-full-behind-woken-sender";
 
 #[derive(Clone, Debug, serde::Serialize, serde::Deserialize)]
@@ -103,6 +104,13 @@ fn signature_for_missing(prog: &Prog, tier: Tier) -> String {
         let r = osc::compare(&Arc::new(a), &caps(tier));
         if r.judged && r.missing.is_empty() {
             return KNOWN_ENDPOINT_DROP.to_string();
+        }
+    }
+    let bw = with_yields(prog, |o| matches!(o, Op::BWait(_)), false);
+    if bw != *prog && bw.validate().is_ok() {
+        let r = osc::compare(&Arc::new(bw), &caps(tier));
+        if r.judged && r.missing.is_empty() {
+            return KNOWN_BARRIER_ARRIVAL.to_string();
         }
     }
     let b = with_yields(prog, |o| matches!(o, Op::Avail(_)), false);
@@ -305,7 +313,7 @@ pub static C04: OscProp = OscProp {
 
 pub static C05: OscProp = OscProp {
     id: "C05",
-    families: &[Family::Condvar, Family::Condvar, Family::Sync2, Family::Sync2, Family::Park],
+    families: &[Family::Condvar, Family::CondvarEpoch, Family::CondvarEpoch, Family::Sync2, Family::Sync2, Family::Park],
     judge: Judge::Both,
     nontrivial: |p, r| r.model_saw_blocked && uses(p, |o| matches!(o, Op::NotifyOne(_) | Op::NotifyAll(_) | Op::BWait(_) | Op::Unpark(_) | Op::CallOnce(..))),
     max_tasks: 4,
